@@ -86,6 +86,14 @@ pub struct FaultPlan {
     pub at: Vec<(usize, Fault)>,
     /// Device capacity in bytes for writes (None = unbounded).
     pub capacity: Option<usize>,
+    /// Read side: this many extra bytes (0xFF) follow the whole words of the data on the device,
+    /// i.e. the byte stream ends inside a word (not a fault: a property of the medium).
+    #[serde(default)]
+    pub trailing: usize,
+    /// Read side: the device is handed to the adapter already positioned at this word (the
+    /// adapter is created over a stream that is not at offset 0).
+    #[serde(default)]
+    pub start_words: usize,
 }
 
 impl FaultPlan {
@@ -104,7 +112,7 @@ impl FaultPlan {
     pub fn shrink(&self, max_len: usize) -> Vec<FaultPlan> {
         let mut out = Vec::new();
         for at in crate::fw::shrink_list(&self.at) {
-            out.push(FaultPlan { at, capacity: self.capacity });
+            out.push(FaultPlan { at, ..self.clone() });
         }
         for (i, (_, f)) in self.at.iter().enumerate() {
             if matches!(f, Fault::Interrupted) {
@@ -113,18 +121,24 @@ impl FaultPlan {
                 for e in at.iter_mut().skip(i) {
                     e.0 = e.0.saturating_sub(1);
                 }
-                out.push(FaultPlan { at, capacity: self.capacity });
+                out.push(FaultPlan { at, ..self.clone() });
             }
             if let Fault::Short(k) = f {
                 if *k + 1 < max_len {
                     let mut at = self.at.clone();
                     at[i].1 = Fault::Short(k + 1);
-                    out.push(FaultPlan { at, capacity: self.capacity });
+                    out.push(FaultPlan { at, ..self.clone() });
                 }
             }
         }
         if self.capacity.is_some() {
-            out.push(FaultPlan { at: self.at.clone(), capacity: None });
+            out.push(FaultPlan { capacity: None, ..self.clone() });
+        }
+        if self.trailing != 0 {
+            out.push(FaultPlan { trailing: 0, ..self.clone() });
+        }
+        if self.start_words != 0 {
+            out.push(FaultPlan { start_words: 0, ..self.clone() });
         }
         out
     }
@@ -209,6 +223,13 @@ impl SimDisk {
             capacity: plan.capacity,
             call: 0,
         }
+    }
+
+    /// Position the device without consuming a call of the fault plan (state before the
+    /// object under test gets it).
+    pub fn pre_position(&mut self, pos: u64) {
+        self.pos = pos;
+        self.shared.borrow_mut().cursor = pos;
     }
 
     pub fn handle(&self) -> Rc<RefCell<DiskShared>> {
